@@ -5,6 +5,7 @@ import (
 
 	sdk "github.com/pokt-network/pocket-core/types"
 	appsTypes "github.com/pokt-network/pocket-core/x/apps/types"
+	authTypes "github.com/pokt-network/pocket-core/x/auth/types"
 	govTypes "github.com/pokt-network/pocket-core/x/gov/types"
 	nodesTypes "github.com/pokt-network/pocket-core/x/nodes/types"
 
@@ -32,7 +33,14 @@ func otherKindTx(s *chainsim.Sim, rng *rand.Rand, entropy int64) sentTx {
 	}
 	var msg sdk.ProtoMsg
 	abs := map[string]interface{}{}
-	switch rng.Intn(7) {
+	switch rng.Intn(8) {
+	case 7: // the parameter owner (a1) changes the fee multiplier of send, possibly in the middle of a block
+		signerIdx = 0
+		o = chainsim.TxOpts{Fee: 10000, Entropy: entropy}
+		fm := authTypes.FeeMultipliers{FeeMultis: []authTypes.FeeMultiplier{{Key: "send", Multiplier: int64(1 + rng.Intn(2))}}, Default: 1}
+		val, _ := chainsim.Codec().MarshalJSON(fm)
+		msg = &govTypes.MsgChangeParam{FromAddress: s.Addr(0), ParamKey: "auth/FeeMultipliers", ParamVal: val}
+		abs["kind"], abs["from"] = "change_param", name(0)
 	case 0: // node stake / edit-stake of a genesis node or of key 2
 		node := []int{0, 1, 2}[rng.Intn(3)]
 		m := &nodesTypes.MsgStake{PublicKey: s.Keys[node].PublicKey(), Chains: []string{"0001"}, Value: sdk.NewInt(int64(3+rng.Intn(4)) * 1000000),
